@@ -803,7 +803,7 @@ FIXED_EXPRS = [
     "/a:c/a:l1/preceding-sibling::*", "/a:c/a:l1/preceding-sibling::*[1]", "/a:c/a:l1/following-sibling::*[1]",
     "/a:c/a:l1/ancestor::*", "/a:c/a:l1/a:in/ancestor-or-self::*[1]", "/a:c/a:l1/a:in/ancestor-or-self::node()",
     "/a:c/a:l1/a:in/a:x/ancestor::*[2]", "/a:c/a:l1/a:in/a:x/ancestor::node()[last()]", "/a:c/ancestor::*", "/a:c/..", "/a:c/../*",
-    "(/a:c/a:l1 | /a:c/a:l1/a:in)//a:x", "(/a:c/a:l1 | /a:c/a:l1/a:in)/*", "(/a:c | /a:c/b:bc)//b:s", "(/a:c/a:l1/.. | /a:c/a:l1)/*",
+    "(/a:c/a:l1 | /a:c/a:l1/a:in)//a:x", "(/a:c/a:l1 | /a:c/a:l1/a:in)/*", "(/a:c | /a:c/b:bc)//b:s", "(/a:c/a:l1/.. | /a:c/a:l1)/*", "(1)/node()", "'a'/node()", "true()/node()[1]",
     "/a:c/namespace::*", "/a:c/attribute::*", "/a:c/@*",
     "/a:c/a:zz = false()", "/a:c/a:zz != true()", "/a:c/a:s = true()", "/a:c/a:s != false()", "/a:c/a:zz < true()",
     "true() = /a:c/a:zz", "not(/a:c/a:zz) = true()",
@@ -1195,38 +1195,17 @@ class XPathEval(Comp):
                     self.reported.add(tg)
                     return (tg, detail + " [as coded: " + need + "]")
             return (tags[0], detail + " [as coded: " + need + "]")
-        if got == "CRASH" and " 1 attribute " in f[6]:
-            # "//@x": moveto_attr_alldesc() = moveto_node_alldesc_child() + moveto_union(): with nested context nodes the
-            # duplicate insertion / unsorted intermediate set hits the hash assert or the get_node_pos() restart
-            return ("xpath-attr-alldesc-crash", detail)
-        if impl_out == "CRASH(-6)" and "( text )" in f[6]:
-            # stale hash entries after xpath_pi_text(); modelled for a predicate directly on the text() step, other
-            # consumers that call set_sort() (string(), name(), union ...) are attributed by the syntax
-            return ("xpath-assert-text-hash", detail)
         ctx_name = None
         if "( cmp = ( step ( ctx ) 0 child ( name" in f[6] and int(f[4]) >= 0:
             nd = parse_dump(f[3])
             if int(f[4]) < len(nd) and nd[int(f[4])].kind in "lt":
                 ctx_name = hexs(nd[int(f[4])].name)
-        if "( cmp = ( step ( ctx ) 0 child ( name" in f[6] and \
-                ("-sibling" in f[6] or (ctx_name and (" %s )" % ctx_name) in f[6])):
-            # a key predicate whose value walks the sibling axes, or reaches the (leaf-)list the CONTEXT node is an
-            # instance of (eval_name_test_try_compile_predicate_append exempts the schema node of the current node from
-            # the multi-instance rule): lyxp_atomize() sees no dependency and the value is evaluated once, as the string
-            # of the first node (not modelled as coded: needs the schema)
+        if ctx_name and "( cmp = ( step ( ctx ) 0 child ( name" in f[6] and (" %s )" % ctx_name) in f[6]:
+            # a key predicate whose value selects the (leaf-)list the CONTEXT node of the evaluation is an instance of:
+            # eval_name_test_try_compile_predicate_append() exempts the schema node of the current node from the
+            # multi-instance rule, the value is evaluated once as the string of the first node (not modelled as
+            # coded: needs the schema)
             return ("xpath-fastpath-context-dependent-rhs", detail)
-        if impl_out == "CRASH(-6)" and " attribute " in f[6]:
-            # 4 or more (internal) metadata items: moveto_attr() retypes the set items to META in place without updating
-            # the set's hash table, the consistency assert of set_sort() fails at the next predicate
-            return ("xpath-attr-internal-meta", detail)
-        if " attribute " in f[6] and not got.startswith(("CRASH", "E")):
-            # in the model the attribute axis selects nothing; whatever the library selects through it
-            # the only metadata in these trees is libyang's internal yang:lyds_tree (sorted (leaf-)lists)
-            return ("xpath-attr-internal-meta", detail)
-        if "( name - " in f[6]:
-            # unprefixed names: the code takes the module of the parent only on the hash-based child step and any
-            # module elsewhere; not modelled as coded (needs the schema)
-            return ("xpath-unprefixed-name-module", detail)
         return (None, detail + " [as-coded model: %s]" % coded[:200])
 
 
@@ -1282,17 +1261,6 @@ class XPathN2S(Comp):
                 s = "%s%d" % (rng.choice(["", "-"]), rng.randrange(0, 2 ** rng.randrange(1, 70)))
             L.append("xpk\tn2s\t" + hexs(s))
         return L
-
-    def witness(self, line, model_out, impl_out):
-        """sanitizer builds: the (long long) cast of a number outside its range (or of NaN / infinity) is undefined"""
-        if impl_out.startswith("CRASH("):
-            try:
-                v = float(unhex(line.split("\t")[2]).decode())
-            except ValueError:
-                return None
-            if v != v or abs(v) >= 2.0 ** 63:
-                return ("xpath-ub-float-cast", "lyxp_set_cast(number %r -> string): %s" % (v, impl_out))
-        return None
 
 
 # ------------------------------------------------------------------------------------------------
@@ -1365,14 +1333,14 @@ class XPathFastPair:
         if a == b:
             return None
         detail = "hash fast path %r selects %s, generic %r selects %s" % (unhex(f[4]).decode(), a, unhex(f[5]).decode(), b)
-        if f[3] in ("num-str", "bool"):
-            return ("xpath-fastpath-nonstring-rhs", detail)
+        # (numbers and booleans used to be looked up as strings: fixed in /repo 434e77e)
         return (None, detail)
 
 
 class XPathSan:
-    """sanitizer builds: evaluating generated expressions has no memory error and no undefined behaviour besides the
-    listed ones (assert in moveto_node, get_node_pos restart, (long long) casts of NaN / out-of-range numbers)"""
+    """sanitizer builds: evaluating generated expressions has no memory error, failed assertion or undefined behaviour
+    (the former ones - asserts in moveto_node / the set hash table, get_node_pos restart, (long long) casts of NaN and
+    out-of-range numbers - were repaired in /repo 61e2388 .. f6e5fb8)"""
     name = "xpath-san"
     driver = "t_xpath"
     kinds = ["asan"]
@@ -1392,25 +1360,4 @@ class XPathSan:
         err = getattr(self, "last_err", "")
         f = line.split("\t")
         detail = "XPath %r, context %s: %s" % (unhex(f[5]).decode("utf-8", "replace"), f[4], out)
-        if "set_sort(set)" in err and "Assertion" in err:
-            return ("xpath-assert-unsorted-child-step", detail)
-        if "Assertion" in err and ("lyht_find(set->ht" in err or
-                                   (("set_insert_node_hash" in err or "set_remove_node_hash" in err) and "`!r'" in err)):
-            if "( text )" in f[6]:
-                return ("xpath-assert-text-hash", detail)
-            if " 1 attribute " in f[6]:
-                return ("xpath-attr-alldesc-crash", detail)
-            if " attribute " in f[6]:
-                return ("xpath-attr-internal-meta", detail)
-            return ("xpath-alldesc-duplicate", detail)
-        if "Assertion" in err and "moveto_resolve_model" in err:
-            return ("xpath-assert-step-on-non-nodeset", detail)
-        if "Assertion" in err and "moveto_axis_node_next_first" in err:
-            return ("xpath-assert-attribute-node", detail)
-        if "get_node_pos" in err and ("SEGV" in err or "null pointer" in err or "member access within null" in err):
-            return ("xpath-crash-sort-restart", detail)
-        if "outside the range of representable values of type 'long long'" in err or \
-                "outside the range of representable values of type 'int'" in err or \
-                "outside the range of representable values of type 'long'" in err:
-            return ("xpath-ub-float-cast", detail)
         return (None, detail + " " + err[-400:])
